@@ -247,7 +247,31 @@ func (c *Ctx) Violate(v Violation) {
 		return
 	}
 	v.Known = ""
-	if len(c.Res.Violations) < 50 {
+	// one entry per distinct kind of failure (keyed by the head of the description), shortest replay wins
+	key := v.What
+	if len(key) > 70 {
+		key = key[:70]
+	}
+	size := func(x Violation) int {
+		n := 0
+		for _, l := range x.Replay {
+			n += len(l)
+		}
+		return n
+	}
+	for i, o := range c.Res.Violations {
+		ok := o.What
+		if len(ok) > 70 {
+			ok = ok[:70]
+		}
+		if ok == key {
+			if size(v) < size(o) {
+				c.Res.Violations[i] = v
+			}
+			return
+		}
+	}
+	if len(c.Res.Violations) < 60 {
 		c.Res.Violations = append(c.Res.Violations, v)
 	}
 }
